@@ -6,9 +6,6 @@ From GV Require Import Base.Prelude Base.PyStr Model.Bins Model.DB Model.Parser 
 Open Scope Z_scope.
 
 (* ---------- counting positions ---------- *)
-Fixpoint zrange (lo : Z) (n : nat) : list Z := match n with O => [] | S k => lo :: zrange (lo + 1) k end.
-Definition zcount (P : Z -> bool) (lo hi : Z) : Z := Z.of_nat (length (filter P (zrange lo (Z.to_nat (hi - lo))))).
-
 Lemma zrange_app : forall n m lo, zrange lo (n + m) = zrange lo n ++ zrange (lo + Z.of_nat n) m.
 Proof.
   induction n as [|n IH]; intros m lo.
@@ -90,8 +87,6 @@ Qed.
 
 (* ---------- the outputs of merge as such a chain ---------- *)
 Definition iv_of (o : mout) : Z * Z := (m_start (out_view o), m_end (out_view o)).
-Definition in_kids (kids : list minput) (p : Z) : bool :=
-  existsb (fun k => (m_start (mi_v k) <=? p) && (p <=? m_end (mi_v k))) kids.
 
 Section OneClassUnion.
   Variables (sK tK fK : str).
